@@ -72,6 +72,22 @@ trait GmT {
     fn gm_push<B: Extend<u8> + AsRef<[u8]> + 'static>(&self, p0: u8, p1: &mut B, p2: usize) -> usize;
 }
 
+/// a receiver-less provided function ahead of the mocked methods: `unmock_with` stays positional over ALL trait functions
+#[unimock(api=StatMock, unmock_with=[_, real_st_a, real_st_b])]
+trait StatT {
+    fn st_k() -> u32 { 1 }
+    fn st_a(&self, p0: u32) -> u32;
+    fn st_b(&self, p0: u32) -> u32;
+}
+fn real_st_a(_: &impl StatT, p0: u32) -> u32 { see(format!("real_a({p0})")); p0 * 2 }
+fn real_st_b(_: &impl StatT, p0: u32) -> u32 { see(format!("real_b({p0})")); p0 * 3 }
+
+/// a generic trait whose `Debug` bound lives in a `where` clause, with methods that have no type parameters of their own
+#[unimock(api=WhMock)]
+trait WhT<T> where T: std::fmt::Debug + 'static {
+    fn wh_put(&self, p0: u8, p1: T) -> u32;
+}
+
 #[unimock(api=LtMock)]
 trait LtT {
     fn lt_m2<'a>(&self, p0: u32, p1: &'a mut u32) -> u32;
@@ -96,6 +112,7 @@ trait OwnT {
     fn o_reqv(self, p0: u32, p1: u32) -> u32;
     fn o_provv(self, p0: u32, p1: u32) -> u32 where Self: Sized { see(format!("provv({p0},{p1})")); self.o_reqv(p1, p0) + 1 }
     fn o_prov(self, p0: u32, p1: u32) -> u32 where Self: Sized { see(format!("prov({p0},{p1})")); self.o_req(p1, p0) + 1 }
+    fn o_provr(&self, p0: u32, p1: u32) -> u32 { see(format!("provr({p0},{p1})")); self.o_req(p1, p0) + 2 }
 }
 
 #[unimock(api=RcMock)]
@@ -566,6 +583,90 @@ fn main() {
         let r = block_on(u.a2(3, 7));
         let s = seen();
         check("async.unmock.awaited", r == 1037 && s == ["real_async2(3,7)"], format!("ret={r} seen={s:?}"));
+    });
+    // --- selection through matching!: guard over several alternatives, several eq! operands in one alternative, ordered multi-alternative
+    run_case("sel.matching-guard-over-alternatives", || {
+        let u = Unimock::new((
+            SelMock::two.each_call(matching!((1, x) | (2, x) if x.len() > 1)).returns(10u32).at_least_times(0),
+            SelMock::two.each_call(matching!(_, _)).returns(20u32).at_least_times(0),
+        ));
+        let r = (u.two(1, "ab".into()), u.two(2, "ab".into()), u.two(1, "a".into()), u.two(2, "a".into()), u.two(3, "ab".into()));
+        check("sel.matching-guard-over-alternatives", r == (10, 10, 20, 20, 20), format!("ret={r:?}"));
+    });
+    run_case("sel.matching-two-eq-operands", || {
+        let u = Unimock::new((
+            RefMock::r_m2.each_call(matching!(eq!(&1), eq!(&2))).returns(10u32).at_least_times(0),
+            RefMock::r_m2.each_call(matching!(_, _)).returns(20u32).at_least_times(0),
+        ));
+        let r = (u.r_m2(1, 2), u.r_m2(1, 1), u.r_m2(2, 2), u.r_m2(2, 1));
+        check("sel.matching-two-eq-operands", r == (10, 20, 20, 20), format!("ret={r:?}"));
+    });
+    run_case("ord.matching-second-alternative", || {
+        let u = Unimock::new((
+            SelMock::two.next_call(matching!((1, _) | (_, "z"))).returns(10u32),
+            SelMock::two.next_call(matching!((5, "q") | (6, "q"))).returns(20u32),
+        ));
+        let r = (u.two(9, "z".into()), u.two(6, "q".into()));
+        check("ord.matching-second-alternative", r == (10, 20), format!("ret={r:?}"));
+    });
+    run_case("ref.unmock.after-static-fn", || {
+        let u = Unimock::new((StatMock::st_a.each_call(matching!(_)).applies_unmocked(), StatMock::st_b.next_call(matching!(5)).returns(1u32).once().then().applies_unmocked()));
+        let r = (u.st_a(5), u.st_b(5), u.st_b(5), <Unimock as StatT>::st_k());
+        let s = seen();
+        check("ref.unmock.after-static-fn", r == (10, 1, 15, 1) && s == ["real_a(5)", "real_b(5)"], format!("ret={r:?} seen={s:?}"));
+    });
+    // a rejecting pattern consulted before the deciding one: nothing of the arguments is rendered on a call that is answered
+    run_case("ref.m2.debug-not-rendered.after-rejecting-pattern", || {
+        let u = Unimock::new((
+            DbgMock::dbg_m2.each_call(matching!(CountDbg(1), _)).returns(1u32).at_least_times(0),
+            DbgMock::dbg_m2.each_call(matching!(CountDbg(2), _)).returns(2u32).at_least_times(0),
+            DbgMock::dbg_m2.each_call(matching!(_, _)).answers(&|_, a, b| a.0 + *b),
+        ));
+        let before = DBG_RENDERINGS.load(std::sync::atomic::Ordering::SeqCst);
+        let mut z = 5;
+        let r = u.dbg_m2(CountDbg(66), &mut z);
+        let n = DBG_RENDERINGS.load(std::sync::atomic::Ordering::SeqCst) - before;
+        check("ref.m2.debug-not-rendered.after-rejecting-pattern", r == 71 && n == 0, format!("ret={r} renderings={n}"));
+    });
+    // a by-value provided method delegated after a `&self` provided method was delegated on the same instance
+    run_case("own.default.after-ref-default", || {
+        let u = Unimock::new(OwnMock::o_req.each_call(matching!(_, _)).answers(&|_, a, b| { see(format!("req({a},{b})")); a * 10 + b }).n_times(2));
+        let r1 = u.o_provr(3, 7);
+        let r2 = u.o_prov(3, 7);
+        let s = seen();
+        check("own.default.after-ref-default", (r1, r2) == (75, 74) && s == ["provr(3,7)", "req(7,3)", "prov(3,7)", "req(7,3)"], format!("ret=({r1},{r2}) seen={s:?}"));
+    });
+    // the first `&self` provided call on ONE shared instance made by eight threads at once
+    run_case("ref.default.concurrent-first-delegation", || {
+        let mut bad = vec![];
+        for round in 0..300 {
+            let u = Unimock::new(RefMock::r_req.each_call(matching!(_, _)).answers(&|_, a, b| a * 10 + b));
+            let barrier = std::sync::Barrier::new(8);
+            let res: Vec<Result<u32, String>> = std::thread::scope(|sc| {
+                let hs: Vec<_> = (0..8).map(|_| sc.spawn(|| { barrier.wait(); u.r_prov(3, 7) })).collect();
+                hs.into_iter().map(|h| h.join().map_err(|p| p.downcast_ref::<String>().cloned().or_else(|| p.downcast_ref::<&str>().map(|s| s.to_string())).unwrap_or_default())).collect()
+            });
+            let _ = seen();
+            if let Some(Err(m)) = res.iter().find(|r| r.is_err()) { bad.push(format!("round {round}: {m}")); break; }
+            if res.iter().any(|r| r.as_ref().ok() != Some(&74)) { bad.push(format!("round {round}: {res:?}")); break; }
+            let _ = std::panic::catch_unwind(std::panic::AssertUnwindSafe(move || drop(u)));
+        }
+        check("ref.default.concurrent-first-delegation", bad.is_empty(), bad.join("; "));
+    });
+    run_case("generic.instances-modes-and-never-called", || {
+        // one instantiation ordered, the other unordered: they are different methods, construction succeeds
+        let u = Unimock::new((GenMock::g2.with_types::<u32>().next_call(matching!(_, _)).returns(1u32), GenMock::g2.with_types::<String>().each_call(matching!(_, _)).returns("s".to_string())));
+        let r1 = <Unimock as GenT<u32>>::g2(&u, 3, 7);
+        // the String instantiation is never called: verification says so although its sibling was called
+        let v = std::panic::catch_unwind(std::panic::AssertUnwindSafe(move || u.verify()));
+        let msg = v.err().and_then(|p| p.downcast_ref::<String>().cloned()).unwrap_or_default();
+        check("generic.instances-modes-and-never-called", r1 == 1 && msg.contains("GenT::g2 was never called"), format!("r1={r1} verify={msg:?}"));
+    });
+    run_case("generic.where-clause-debug-rendering", || {
+        let u = Unimock::new(WhMock::wh_put.with_types::<String>().each_call(matching!(9, _)).returns(1u32)).no_verify_in_drop();
+        let r = std::panic::catch_unwind(std::panic::AssertUnwindSafe(|| <Unimock as WhT<String>>::wh_put(&u, 2, "b".to_string())));
+        let msg = r.err().and_then(|p| p.downcast_ref::<String>().cloned()).unwrap_or_default();
+        check("generic.where-clause-debug-rendering", msg.contains("WhT::wh_put(2, \"b\")"), msg.replace('\n', " "));
     });
     // --- generics
     run_case("generic.instances-distinct", || {
